@@ -79,7 +79,7 @@ def configs(tier):
                 c = dict(g)
                 c.update(kind="step", target=tk, target_arg=tv, min_step=ms)
                 c["name"] = f"step-N{g['N']}-b{g['beta_prev']}-tol{g['tol']}-{g['pop']}-{tk}{tv or ''}-{ms}"
-                c["timeout_ms"] = 120000
+                c["timeout_ms"] = 120000 if g["D"] <= 4 else 900000
                 if g["N"] >= 3:
                     c["split_depth"] = 3
                 out.append(c)
